@@ -1,6 +1,7 @@
 use crate::common::Ctx;
 pub mod c01;
 pub mod c02;
+pub mod c03;
 pub mod c04;
 pub mod c17;
 
@@ -8,6 +9,8 @@ pub fn dispatch(ctx: &mut Ctx) -> bool {
     match ctx.prop.as_str() {
         "C01" => c01::run(ctx),
         "C02" => c02::run(ctx),
+        "C03" => c03::run(ctx),
+        "C03child" => c03::run_child(ctx),
         "C04" => c04::run(ctx),
         "C17" => c17::run(ctx),
         _ => return false,
